@@ -2330,16 +2330,73 @@ package gomatrixserverlib
 //@   assigns nothing
 
 // state resolution v1
-//@ func sortConflictedEventsByDepthAndSHA1
-//@   trusted
-//@   ensures same-number: len(result) == len(events)
+// v1 ordering inside a block: ascending depth, ties by DESCENDING SHA-1 of the event ID
+//@ func (conflictedEventSorter).Less
+//@   property C10, C11
+//@   nosafety
+//@   ensures by-depth-then-descending-hash: result <==> ((s[i].depth == s[j].depth) ? (called(Compare) && ret(Compare) > 0) : (s[i].depth < s[j].depth))
+//@   calls Compare@root hash-of-i-against-hash-of-j: len(a) == 20 && len(b) == 20 && (forall k int :: 0 <= k && k < 20 ==> (a[k] == root_s[root_i].eventIDSHA1[k] && b[k] == root_s[root_j].eventIDSHA1[k]))
 //@   assigns nothing
+
+// every event of the block is put to the sort with its own depth (the sort itself is sort.Sort, assumed to permute)
+//@ func sortConflictedEventsByDepthAndSHA1
+//@   property C10, C11
+//@   nosafety
+//@   zerooffsets
+//@   ensures same-number: len(result) == len(events)
+//@   ensures a-new-list: fresh(result)
+//@   calls Sort@root every-event-with-its-own-depth: len(data.("conflictedEventSorter")) == len(root_events) && (forall j int :: 0 <= j && j < len(root_events) ==> (data.("conflictedEventSorter")[j].event == root_events[j] && data.("conflictedEventSorter")[j].depth == root_events[j].Depth()))
+//@   calls Sum@root hash-of-the-events-own-id: 0 <= idx(1) && idx(1) < len(root_events) && str(data) == root_events[idx(1)].EventID()
+//@   loop 1: invariant 0 <= idx(1) && idx(1) <= len(events) && len(block) == len(events)
+//@   loop 1: invariant forall j int :: 0 <= j && j < idx(1) ==> (block[j].event == events[j] && block[j].depth == events[j].Depth())
+//@   assigns nothing
+
+// the v1 resolver's auth state: an event is registered under its own (type, state key) - the singleton slots only
+// for the empty state key - and its room is compared with the room of the first event
 //@ func (*stateResolver).addAuthEvent
-//@   trusted
-//@   assigns *r
+//@   property C10, C11
+//@   nosafety
+//@   requires r != nil && r.resolvedMembers != nil && r.resolvedThirdPartyInvites != nil
+//@   ensures create-slot: r.resolvedCreate == ((event.Type() == "m.room.create" && event.StateKeyEquals("")) ? event : old(r.resolvedCreate))
+//@   ensures power-levels-slot: r.resolvedPowerLevels == ((event.Type() == "m.room.power_levels" && event.StateKeyEquals("")) ? event : old(r.resolvedPowerLevels))
+//@   ensures join-rules-slot: r.resolvedJoinRules == ((event.Type() == "m.room.join_rules" && event.StateKeyEquals("")) ? event : old(r.resolvedJoinRules))
+//@   ensures member-slot: event.Type() == "m.room.member" ==> get(r.resolvedMembers, spec.SenderID(*event.StateKey())) == event
+//@   ensures third-party-invite-slot: event.Type() == "m.room.third_party_invite" ==> get(r.resolvedThirdPartyInvites, *event.StateKey()) == event
+//@   ensures other-members-stay: forall k string :: !(event.Type() == "m.room.member" && k == *event.StateKey()) ==> get(r.resolvedMembers, spec.SenderID(k)) == old(get(r.resolvedMembers, spec.SenderID(k)))
+//@   ensures other-invites-stay: forall k string :: !(event.Type() == "m.room.third_party_invite" && k == *event.StateKey()) ==> get(r.resolvedThirdPartyInvites, k) == old(get(r.resolvedThirdPartyInvites, k))
+//@   ensures another-room-invalidates: r.roomID != event.RoomID().String() ==> !r.valid
+//@   ensures validity-is-never-regained: !old(r.valid) ==> !r.valid
+//@   assigns r.roomID, r.valid, r.resolvedCreate, r.resolvedPowerLevels, r.resolvedJoinRules, r.resolvedMembers[*], r.resolvedThirdPartyInvites[*]
+
+// ... and un-registered under exactly the given (type, state key)
 //@ func (*stateResolver).removeAuthEvent
+//@   property C10, C11
+//@   nosafety
+//@   requires r != nil && r.resolvedMembers != nil && r.resolvedThirdPartyInvites != nil
+//@   ensures create-slot: r.resolvedCreate == ((eventType == "m.room.create" && stateKey == "") ? nil : old(r.resolvedCreate))
+//@   ensures power-levels-slot: r.resolvedPowerLevels == ((eventType == "m.room.power_levels" && stateKey == "") ? nil : old(r.resolvedPowerLevels))
+//@   ensures join-rules-slot: r.resolvedJoinRules == ((eventType == "m.room.join_rules" && stateKey == "") ? nil : old(r.resolvedJoinRules))
+//@   ensures member-slot: forall k string :: get(r.resolvedMembers, spec.SenderID(k)) == ((eventType == "m.room.member" && k == stateKey) ? nil : old(get(r.resolvedMembers, spec.SenderID(k))))
+//@   ensures third-party-invite-slot: forall k string :: get(r.resolvedThirdPartyInvites, k) == ((eventType == "m.room.third_party_invite" && k == stateKey) ? nil : old(get(r.resolvedThirdPartyInvites, k)))
+//@   assigns r.resolvedCreate, r.resolvedPowerLevels, r.resolvedJoinRules, r.resolvedMembers[*], r.resolvedThirdPartyInvites[*]
+
+// grouping of the conflicted events into blocks: not verified (pointer into a list chosen at run time); it writes
+// only the resolver's own lists
+//@ func (*stateResolver).addConflicted
 //@   trusted
 //@   assigns *r
+
+// v1 resolves the conflicted auth types in the prescribed order - create, power levels, join rules, third-party
+// invites, members - each against the auth events registered so far, and everything else only afterwards
+//@ func ResolveStateConflicts
+//@   property C10, C11
+//@   nosafety
+//@   calls addConflicted@root the-conflicted-events: events == root_conflicted && !called(addAuthEvent) && !called(resolveAndAddAuthBlocks)
+//@   calls addAuthEvent@root unconflicted-auth-events-before-any-resolution: called(addConflicted) && !called(resolveAndAddAuthBlocks) && 0 <= idx(1) && idx(1) < len(root_authEvents) && event == root_authEvents[idx(1)]
+//@   calls resolveAndAddAuthBlocks@root prescribed-type-order: called(addConflicted) && !called(resolveNormalBlock) && ncalls(resolveAndAddAuthBlocks) <= 4 && (ncalls(resolveAndAddAuthBlocks) == 0 ==> (len(blocks) == 1 && blocks[0] == r.creates)) && (ncalls(resolveAndAddAuthBlocks) == 1 ==> (len(blocks) == 1 && blocks[0] == r.powerLevels)) && (ncalls(resolveAndAddAuthBlocks) == 2 ==> (len(blocks) == 1 && blocks[0] == r.joinRules)) && (ncalls(resolveAndAddAuthBlocks) == 3 ==> blocks == r.thirdPartyInvites) && (ncalls(resolveAndAddAuthBlocks) == 4 ==> blocks == r.members)
+//@   calls resolveNormalBlock@root other-state-after-all-auth-types: ncalls(resolveAndAddAuthBlocks) == 5 && events == r.others[idx(2)]
+//@   loop 1: invariant 0 <= idx(1) && idx(1) <= len(authEvents)
+//@   loop 2: invariant 0 <= idx(2)
 
 //@ func (*stateResolver).resolveAuthBlock
 //@   property C10
